@@ -141,7 +141,10 @@ func modifyUsingTemp(c1, c2, c3 *sqlcheck.Change) (from, to *schema.Table, _ boo
 	}
 	// In case no parser is attached, "RENAME T" will be presented as "DROP T" and "ADD T".
 	if len(c3.Changes) == 2 && isDropT(c3.Changes[0], prefixed) && isAddT(c3.Changes[1], name) {
-		return drop.T, add.T, true
+		// The temporary table must be renamed to T itself (not to a name that starts with T).
+		if a := c3.Changes[1].(*schema.AddTable); a.T.Name == name {
+			return drop.T, add.T, true
+		}
 	}
 	add.T.Name = prefixed
 	return nil, nil, false
